@@ -114,6 +114,17 @@ def token_scope(prog, e):
     return e["s"]
 
 
+def generic_cause(c):
+    """a cause that only names a declaration rope handles correctly by itself: `global x` /
+    `nonlocal x` without a binder, or `global x` with assignment-like binders (rope keeps the
+    module's PyName for those); `by:` causes name plain bindings"""
+    if c.startswith("by:") or c in ("nonlocal-decl-only", "same-object-imported-in-two-scopes"):
+        return True
+    if c.startswith("global-decl:"):
+        return all(b in c15.ASSIGN_LIKE or b == "no-binder" for b in c[len("global-decl:"):].split("+"))
+    return False
+
+
 def causes_for(prog, q, t):
     """shrunk causes of a deviation between query token q and token t (one failure is
     recorded per cause; see c15._split for bindings rope does not see at all)"""
@@ -143,17 +154,19 @@ def causes_for(prog, q, t):
             c = c15.cause_of(prog, sc, e["n"], e["b"])
             if not c.startswith("by:"):
                 found.append(c)
-    if found:
-        # a bare declaration is the least specific description: prefer the block that
-        # also rebinds the name
-        found.sort(key=lambda c: c in ("global-decl:no-binder", "nonlocal-decl-only"))
-        return [found[0]]
+    # a bare declaration is the least specific description: prefer the block that also
+    # rebinds the name, then the merged-import rule, then the bare declaration
+    specific = [c for c in found if not generic_cause(c)]
+    if specific:
+        return [specific[0]]
     if q["b"] != t["b"] and q["b"] and t["b"]:
         both = set(c15._binders(prog, q["b"], q["n"])) & set(c15._binders(prog, t["b"], t["n"]))
         if both & {"import", "importfrom"}:
             # two scopes import the same object under the same alias: by design rope
             # compares imported names by what they import (occurrences.same_pyname)
             return ["same-object-imported-in-two-scopes"]
+    if found:
+        return [found[0]]
     c = None
     # binders of the feature groups (constructs rope has no visitor for) that take part
     # in either binding: the deviation is attributed to each of them
